@@ -32,20 +32,6 @@ Definition C12_model (c : C12_case) : C12_obs :=
 Definition C12_check (c : C12_case) (o : C12_obs) : bool := same_set o (C12_model c).
 
 (* transport of rendered columns: table of the distinct strings + one index per row *)
-Definition expand (tbl : list str) (idx : list nat) : list str := map (fun i => nth i tbl []) idx.
-
-(* compact transport of ASCII strings: the string c1..ck travels as the numeral 1 c1 .. ck in base 256 *)
-Fixpoint decode_aux (base : N) (fuel : nat) (n : N) (acc : list N) : list N :=
-  match fuel with
-  | O => acc
-  | S f => if N.leb n 1 then acc else decode_aux base f (N.div n base) (N.modulo n base :: acc)
-  end.
-Definition decode_base (base n : N) : list N := decode_aux base (N.size_nat n) n [].
-Definition encode_base (base : N) (s : list N) : N := fold_left (fun a c => (a * base + c)%N) s 1%N.
-Definition decode_str (n : N) : str := decode_base 256 n.
-(* row indices travel the same way in base 65536 *)
-Definition decode_idx (n : N) : list N := decode_base 65536 n.
-
 Definition expandN (tbl : list str) (idx : list N) : list str := map (fun i => nth (N.to_nat i) tbl []) idx.
 
 (* what the harness prints for one (preset, column): the names of the selection, then per transformer
